@@ -28,8 +28,8 @@ RULE = (
     "non-trivial = the restriction differs from the values used by the unconstrained encoding"
 )
 BOUNDS = {
-    "quick": "8 configurations (HQ/LD, fragments, fields, lossless, custom quantisation matrix, asymmetric transform, 4:2:2 10 bit with custom signal range) x 2 ordering patterns x every constrained key (56) x up to 5 variants; 150 seeded pairs of keys",
-    "thorough": "10 configurations x 5 ordering patterns x every key x up to 7 variants; 2500 seeded pairs of keys",
+    "quick": "8 configurations (HQ/LD, fragments, fields, lossless, custom quantisation matrix, asymmetric transform, 4:2:2 10 bit with custom signal range) x 2 ordering patterns x every constrained key (56) x up to 5 variants; curated pairs (extended-transform flag x transform value key, all variants) per configuration; 150 seeded pairs of keys",
+    "thorough": "10 configurations x 5 ordering patterns x every key x up to 7 variants; curated extended-transform pairs; 2500 seeded pairs of keys",
 }
 OUTSIDE = "tables with more than two restricted keys or several columns; configurations outside the catalogue; the real level tables are checked under C15"
 ASSUMPTIONS = [
@@ -222,14 +222,18 @@ CODING_CHOICE_KEYS = [
     "color_primaries_index", "custom_color_matrix_flag", "color_matrix_index", "custom_transfer_function_flag",
     "transfer_function_index", "picture_coding_mode", "asym_transform_index_flag", "asym_transform_flag",
 ]
-ADMITTING = ("observed", "superset", "range", "both")
+ADMITTING = ("observed", "superset", "range", "both", "unused-key-zero", "unused-key-true", "unused-key-none")
 
 
-def variants(key, obs, nmax):
+def variants(key, obs, nmax, all_obs=None):
     """Restriction variants (ValueSet constructor arguments) for a key whose observed values are obs."""
     out = _variants(key, obs)
     if key not in CODING_CHOICE_KEYS:
         out = [v for v in out if v[0] in ADMITTING]
+    if key == "quant_matrix_values" and all_obs is not None and True in all_obs.get("custom_quant_matrix", []):
+        # checked by the validator through allowed_values_for (not assert_level_constraint), so never "observed": with a custom
+        # matrix in the stream the key is in use and, being fixed by the CodecFeatures, only admitting restrictions apply
+        out = [("superset", ((0, 127),))]
     return out[:nmax]
 
 
@@ -254,6 +258,7 @@ def _variants(key, obs):
         # key never checked on this stream (e.g. custom values behind a false flag): any restriction must be harmless
         out.append(("unused-key-zero", (0,)))
         out.append(("unused-key-true", (True,)))
+        out.append(("unused-key-none", ()))  # "<no values>", as the real tables write fields that must not be present
     return out
 
 
@@ -273,6 +278,8 @@ def tasks(tier, seed):
     for ci in range(min(ncfg, len(configs()))):
         for pi in range(npat):
             out.append({"id": "%s/p%d/single" % (configs()[ci][0], pi), "harness": "single", "args": (ci, pi, keys, 5 if q else 7)})
+    for ci in range(min(ncfg, len(configs()))):
+        out.append({"id": "%s/extended-transform-pairs" % configs()[ci][0], "harness": "xt", "args": (ci, 0)})
     pairs = []
     for _ in range(150 if q else 2500):
         a, b = rnd.sample(keys, 2)
@@ -311,10 +318,43 @@ def _single_case(task, ki, vi):
     if not isinstance(obs, dict):
         return None
     key = keys[ki]
-    vs = variants(key, obs.get(key, []), nmax)
+    vs = variants(key, obs.get(key, []), nmax, obs)
     if vi >= len(vs):
         return None
     return ci, pi, [(key, vs[vi][1])], vs[vi][0]
+
+
+COUPLED = {"wavelet_index_ho": "asym_transform_index_flag", "dwt_depth_ho": "asym_transform_flag"}
+
+
+def key_variants(ci, obs, key, nmax, other_keys=()):
+    """variants() for a key, given which other keys the same table restricts.
+
+    wavelet_index_ho / dwt_depth_ho are coded only when their flag is set.  When the table also restricts that flag, the value
+    may become coded although the unconstrained stream does not code it, so the configuration's own value (fixed by the
+    CodecFeatures) counts as its observed value: a restriction excluding it would break the documented precondition."""
+    o = obs.get(key, [])
+    if key in COUPLED and not o and COUPLED[key] in other_keys:
+        o = [int(configs()[ci][1][key])]
+    return variants(key, o, nmax, obs)
+
+
+XT_FLAGS = ["asym_transform_index_flag", "asym_transform_flag"]
+XT_VALUES = ["wavelet_index_ho", "dwt_depth_ho", "wavelet_index", "dwt_depth"]
+
+
+def _xt_cases(ci, pi):
+    """Curated pairs: each extended-transform flag under each of its variants x each transform value key under each variant."""
+    obs = observed(ci, pi)
+    if not isinstance(obs, dict):
+        return []
+    out = []
+    for f in XT_FLAGS:
+        for fn, fv in key_variants(ci, obs, f, 7):
+            for k in XT_VALUES:
+                for kn, kv in key_variants(ci, obs, k, 7, (f,)):
+                    out.append((ci, pi, [(f, fv), (k, kv)], "%s+%s" % (fn, kn)))
+    return out
 
 
 def _pair_case(task, i):
@@ -322,8 +362,8 @@ def _pair_case(task, i):
     obs = observed(ci, pi)
     if not isinstance(obs, dict):
         return None
-    xa = variants(a, obs.get(a, []), 7)
-    xb = variants(b, obs.get(b, []), 7)
+    xa = key_variants(ci, obs, a, 7, (b,))
+    xb = key_variants(ci, obs, b, 7, (a,))
     if not xa or not xb:
         return None
     return ci, pi, [(a, xa[va % len(xa)][1]), (b, xb[vb % len(xb)][1])], xa[va % len(xa)][0] + "+" + xb[vb % len(xb)][0]
@@ -352,6 +392,21 @@ def build(task):
 
         return h
 
+    if task["harness"] == "xt":
+        ci, pi = task["args"]
+
+        def hx(ctx):
+            cases = _xt_cases(ci, pi)
+            if not cases:
+                return "base-unsatisfiable"
+            c = cases[ctx.concretize(ctx.sym_int("case", 0, len(cases) - 1))]
+            oc, label, detail = _case(c[0], c[1], c[2])
+            if label:
+                ctx.fail(label, detail)
+            return "xt %s" % oc
+
+        return hx
+
     (pairs,) = task["args"]
 
     def hp(ctx):
@@ -374,6 +429,9 @@ def _replay_case(task, inputs):
         if obs is not None and not isinstance(obs, dict):
             return "rejected", "validator-rejects-encoder-output:unconstrained", "configuration %s pattern %r: %r" % (configs()[ci][0], PATTERNS[pi], obs)
         c = _single_case(task, inputs.get("key", 0), inputs.get("variant", 0))
+    elif task["harness"] == "xt":
+        cases = _xt_cases(*task["args"])
+        c = cases[inputs.get("case", 0)] if cases else None
     else:
         c = _pair_case(task, inputs.get("pair", 0))
     if c is None:
